@@ -10,7 +10,7 @@ use uuid::Uuid;
 pub const NS: u128 = 0x6ba7b810_9dad_11d1_80b4_00c04fd430c8;
 
 pub struct TxIds {
-    ns: Uuid,
+    pub ns: Uuid,
     known: HashMap<Uuid, u64>,
     upto: u64,
     filled: u64,
@@ -234,6 +234,7 @@ impl Exec {
                 let Ok(p) = p.parse::<u64>() else { return false };
                 self.lvl = Arc::new(PriceLevel::new(p));
                 self.generator = Arc::new(UuidGenerator::new(Uuid::from_u128(NS)));
+                self.txids.ns = Uuid::from_u128(NS);
                 self.cprog.clear();
                 self.after_conc = false;
                 self.txids.rebase(0);
@@ -245,13 +246,25 @@ impl Exec {
                 self.sum_exec = 0;
                 self.emit(line, "new");
             }
-            ["newgen", c] => {
-                // a generator restored from its serialized form with the counter at `c`
+            ["newgen", c] | ["newgen", c, _] => {
+                // a generator with the counter at `c` over a chosen namespace: built by the constructor
+                // when c = 0, restored from its serialized form otherwise
                 let Ok(c) = c.parse::<u64>() else { return false };
-                let js = format!("{{\"namespace\":\"{}\",\"counter\":{}}}", Uuid::from_u128(NS), c);
-                match serde_json::from_str::<UuidGenerator>(&js) {
+                let ns = match t.get(2).copied() {
+                    None | Some("std") => Uuid::from_u128(NS),
+                    Some("nil") => Uuid::nil(),
+                    Some("max") => Uuid::from_u128(u128::MAX),
+                    Some(h) => match u128::from_str_radix(h, 16) { Ok(v) => Uuid::from_u128(v), Err(_) => return false },
+                };
+                let built = if c == 0 {
+                    Ok(UuidGenerator::new(ns))
+                } else {
+                    serde_json::from_str::<UuidGenerator>(&format!("{{\"namespace\":\"{}\",\"counter\":{}}}", ns, c))
+                };
+                match built {
                     Ok(g) => {
                         self.generator = Arc::new(g);
+                        self.txids.ns = ns;
                         self.txids.rebase(c);
                         self.issued = c;
                         self.emit(line, "newgen");
@@ -508,7 +521,7 @@ impl Exec {
                     Ok(Ok(newl)) => {
                         if is_fork {
                             // the fork's generator must be at the same counter as the main one
-                            let js = format!("{{\"namespace\":\"{}\",\"counter\":{}}}", Uuid::from_u128(NS), self.issued);
+                            let js = format!("{{\"namespace\":\"{}\",\"counter\":{}}}", self.txids.ns, self.issued);
                             let g: UuidGenerator = serde_json::from_str(&js).expect("generator json");
                             self.fork = Some((newl, g));
                             self.emit(line_in, "fork ok");
